@@ -3,7 +3,7 @@ import vlib
 # Known finding class: SelectorAndNamedPortIndex panics ("discard of unknown ID") when an endpoint whose parent-id list names
 # the same parent twice is deleted or stops naming that parent.  Only the directed scenario produces it.
 def classify(case_line):
-    tags = case_line.get("tags", [])
+    tags = case_line.get("tags") or []
     if "np:panic" in tags and "np:duplicate-parent-ids" in tags:
         return "np-duplicate-parent-panic"
     return None
